@@ -51,6 +51,46 @@ def runScript (maxDepth : Nat) : List Op → Machine → Machine × Option SMErr
     | .ok m' => runScript maxDepth rest m'
     | .error e => (m, some e)
 
+/-! #### The floor (jsontext/state.go `stateMachine.Floor`, arshal_methods.go:224-227, 326-329,
+arshal_funcs.go:223-226, 313-316)
+
+`Model.State.Machine` models the token API with `Floor = 0`.  While user code runs, the four call sites set
+`Tokens.Floor = len(Tokens.Stack)`; `popObject`/`popArray` then refuse (`errEnclosingEnd`) to pop when
+`len(m.Stack) <= m.Floor` — checked right after the isObject/isArray test and before the other checks. -/
+
+inductive PErr where
+  | sm (e : SMErr)
+  | enclosingEnd      -- errEnclosingEnd
+deriving DecidableEq, Repr, Inhabited
+
+def Op.isPop : Op → Bool
+  | .popO | .popA => true
+  | _ => false
+
+def liftSM : Except SMErr Machine → Except PErr Machine
+  | .ok m => .ok m
+  | .error e => .error (.sm e)
+
+/-- One call on a coder whose state machine has the given floor. -/
+def policedStep (maxDepth floor : Nat) (m : Machine) : Op → Except PErr Machine
+  | .popO =>
+    if !m.last.isObject then .error (.sm .mismatchDelim)
+    else if m.stack.length ≤ floor then .error .enclosingEnd
+    else liftSM m.popObject
+  | .popA =>
+    if !m.last.isArray || m.stack.length = 0 then .error (.sm .mismatchDelim)
+    else if m.stack.length ≤ floor then .error .enclosingEnd
+    else liftSM m.popArray
+  | op => liftSM (op.apply maxDepth m)
+
+/-- Run the user's calls under a floor; the user code stops at (and returns) the first error. -/
+def runPoliced (maxDepth floor : Nat) : List Op → Machine → Machine × Option PErr
+  | [], m => (m, none)
+  | op :: rest, m =>
+    match policedStep maxDepth floor m op with
+    | .ok m' => runPoliced maxDepth floor rest m'
+    | .error e => (m, some e)
+
 /-- What the user function returns. -/
 inductive Ret where
   | nil | unsupported | other
@@ -81,12 +121,16 @@ def police (prev cur : Nat × Nat) (ret : Ret) : CallResult :=
   | .unsupported => if prev.1 == cur.1 && prev.2 == cur.2 then .skip else .fail
   | .other => .fail
 
-/-- A coder-style call: the user runs `script` (returning the first error it meets, otherwise `ret`);
-the library compares `Tokens.DepthLength()` before and after. -/
-def userCall (maxDepth : Nat) (m : Machine) (script : List Op) (ret : Ret) : CallResult :=
-  let r := runScript maxDepth script m
+/-- A coder-style call: the library raises the floor to the current stack length, the user runs `script`
+(returning the first error it meets, otherwise `ret`), the floor is restored, and the library compares
+`Tokens.DepthLength()` before and after. -/
+def userCallWithFloor (maxDepth floor : Nat) (m : Machine) (script : List Op) (ret : Ret) : CallResult :=
+  let r := runPoliced maxDepth floor script m
   let ret' := if r.2.isSome then Ret.other else ret
   police m.depthLength r.1.depthLength ret'
+
+def userCall (maxDepth : Nat) (m : Machine) (script : List Op) (ret : Ret) : CallResult :=
+  userCallWithFloor maxDepth m.stack.length m script ret
 
 /-! ### Method sets, candidates, outcomes -/
 
